@@ -279,7 +279,7 @@ Proof.
         + apply andb_prop in Hwf. destruct Hwf as [A B].
           left. exists d, []. repeat split; assumption.
       - apply andb_prop in Hwf. destruct Hwf as [A B].
-        left. exists x, vs'. repeat split; try assumption. destruct p; reflexivity.
+        left. exists x, vs'. repeat split; try assumption; destruct p; reflexivity.
       - destruct p as [| |d]; try discriminate Hwf.
         + right. exists vs'. repeat split; assumption.
         + apply andb_prop in Hwf. destruct Hwf as [A B].
@@ -374,13 +374,15 @@ Proof.
     destruct (fields_rt s fs HF O vs H) as [kvs [E1 [_ E2]]].
     exists (PDict kvs). split.
     + rewrite to_native_seq, E1. reflexivity.
-    + rewrite from_py_seq, canon_seq. rewrite (E2 [] (Forall_nil _)). reflexivity.
+    + rewrite from_py_seq, canon_seq. pose proof (E2 [] (Forall_nil _)) as E3.
+      change ([] ++ kvs) with kvs in E3. rewrite E3. reflexivity.
   - (* SET *) intros fs HF s v H. destruct v as [| | | | | | | |vs| | |]; try discriminate H.
     rewrite wf_set in H.
     destruct (fields_rt s fs HF O vs H) as [kvs [E1 [_ E2]]].
     exists (PDict kvs). split.
     + rewrite to_native_set, E1. reflexivity.
-    + rewrite from_py_set, canon_set. rewrite (E2 [] (Forall_nil _)). reflexivity.
+    + rewrite from_py_set, canon_set. pose proof (E2 [] (Forall_nil _)) as E3.
+      change ([] ++ kvs) with kvs in E3. rewrite E3. reflexivity.
   - (* SEQUENCE OF *) intros t IH s v H. destruct v as [| | | | | | | | |xs| |]; try discriminate H.
     simpl in H. destruct (list_rt t IH s xs H) as [ps [E1 E2]].
     exists (PList ps). split.
